@@ -53,7 +53,7 @@ PRIMITIVE_PREFIXES = ("PrimInt63.", "PrimFloat.", "Uint63.", "Sint63.")  # kerne
 
 def _raise_stack_limit():
     """coqc evaluates generated case files whose list literals can be long: with the usual 8 MiB soft stack limit a long literal ends in
-    `Error: Stack overflow` (seen once at the thorough tier).  Children inherit the limit set here (1 GiB, or the hard limit if lower)."""
+    `Error: Stack overflow` (seen once at the thorough tier).  Applied (preexec) to the Coq tools only (1 GiB, or the hard limit if lower)."""
     try:
         import resource
         soft, hard = resource.getrlimit(resource.RLIMIT_STACK)
@@ -67,14 +67,18 @@ def _raise_stack_limit():
         pass
 
 
-_raise_stack_limit()
+def _is_coq_cmd(cmd):
+    head = cmd if isinstance(cmd, str) else " ".join(map(str, cmd[:3]))
+    return any(t in head for t in ("coqc", "coqchk", "coqtop", "make"))
 
 
 def sh(cmd, timeout=600, cwd=None, env=None, input=None):
-    """Run a command, return (rc, stdout, stderr); rc=124 on timeout."""
+    """Run a command, return (rc, stdout, stderr); rc=124 on timeout.  Only the Coq tools get the raised stack limit: a process-wide
+    limit would also become the default stack size of every thread the implementation's pools start (1 GiB each)."""
     try:
         p = subprocess.run(cmd, shell=isinstance(cmd, str), cwd=cwd, env=env, input=input,
-                           capture_output=True, text=True, timeout=timeout)
+                           capture_output=True, text=True, timeout=timeout,
+                           preexec_fn=_raise_stack_limit if _is_coq_cmd(cmd) else None)
         return p.returncode, p.stdout, p.stderr
     except subprocess.TimeoutExpired as e:
         so = e.stdout.decode() if isinstance(e.stdout, bytes) else (e.stdout or "")
